@@ -212,6 +212,7 @@ fn wrap_text(c: Context, inner: &str, uniq: u32) -> String {
         IfElseElseBlock => format!("if (a == {}) a = 104; else {{ a = 105; {} }}", uniq, inner),
         IfElseElseStmt => format!("if (a == {}) {{ a = 104; }} else {}", uniq, one),
         IfElseBothStmt => format!("if (a == {}) a = 106; else {}", uniq, one),
+        IfElseThenBothStmt => format!("if (a == {}) {} else a = 113;", uniq, blk),
         WhileBlock => format!("while (a == {}) {{ {} a = 107; }}", uniq, inner),
         WhileStmt => format!("while (a == {}) {}", uniq, one),
         ForRangeBlock => format!("for int i{} in [0:2:8] {}", uniq, blk),
